@@ -743,8 +743,117 @@ fn case_history(case: &str) -> Option<Fail> {
     None
 }
 
+fn all_interned(env: &E, b: &B, seen: &mut std::collections::HashSet<*const BDD<usize>>) -> Option<String> {
+    let p = Rc::as_ptr(b);
+    if !seen.insert(p) {
+        return None;
+    }
+    let hit = env.nodes.borrow().get(b.as_ref()).map(|x| Rc::ptr_eq(x, b));
+    match hit {
+        None => return Some(format!("node {} is reachable from a handed-out diagram but is not in the environment", show(b).chars().take(60).collect::<String>())),
+        Some(false) => return Some("a reachable node is a second copy of an interned structure".into()),
+        Some(true) => {}
+    }
+    if let BDD::Choice(t, _, f) = b.as_ref() {
+        if let Some(e) = all_interned(env, t, seen) {
+            return Some(e);
+        }
+        return all_interned(env, f, seen);
+    }
+    None
+}
+
+/// a large environment (tens of thousands of nodes, built from random truth tables over 14 variables through mk_choice):
+/// every node reachable from a result held through ONE handle is the interned copy, and rebuilding a result yields the
+/// very same node
+fn case_history_big(case: &str) -> Option<Fail> {
+    tick();
+    let env = E::new();
+    let r = quiet(|| {
+        let mut rng = Rng(0x1234_5678_9abc_def1);
+        let ids: Vec<usize> = (0..14).collect();
+        let mut held: Vec<(B, Vec<bool>)> = vec![];
+        while env.size() < 40000 && held.len() < 64 {
+            let tt: Vec<bool> = (0..(1usize << 14)).map(|_| rng.next() & 1 == 1).collect();
+            held.push((build(&env, &ids, &tt), tt));
+        }
+        for (k, (h, _)) in held.iter().enumerate() {
+            let mut seen = std::collections::HashSet::new();
+            if let Some(e) = all_interned(&env, h, &mut seen) {
+                return Some(format!("held diagram #{k} in an environment of {} nodes: {e}", env.size()));
+            }
+        }
+        let (h0, t0) = &held[held.len() / 2];
+        let again = build(&env, &ids, t0);
+        if !Rc::ptr_eq(&again, h0) {
+            return Some(format!("rebuilding a diagram in an environment of {} nodes gave a second copy", env.size()));
+        }
+        None
+    });
+    match r {
+        Err(p) => Some(Fail { case: case.into(), expected: "no panic".into(), actual: p }),
+        Ok(Some(e)) => Some(Fail { case: case.into(), expected: "every reachable node exists exactly once in the environment".into(), actual: e }),
+        Ok(None) => None,
+    }
+}
+
+/// named definitions (`ParsedFormula::define`, outside the contracts by assumption A17): an evaluation depends only on
+/// the definitions in force, not on earlier evaluations or re-definitions in the same environment
+fn case_history_define(case: &str) -> Option<Fail> {
+    use rsbdd::parser::ReferenceContents;
+    tick();
+    let ordering = || -> Vec<NamedSymbol> {
+        ["a", "b", "c"].iter().enumerate().map(|(id, n)| NamedSymbol { name: Rc::new(n.to_string()), id }).collect()
+    };
+    let r = quiet(|| {
+        let env = Rc::new(BDDEnv::<NamedSymbol>::new());
+        let parse = |t: &str| ParsedFormula::new_with_env(Rc::clone(&env), &mut t.as_bytes(), Some(ordering())).expect("parse");
+        let top = parse("{f} | c");
+        let steps: [(&str, &str, &str); 5] = [
+            ("g", "a", ""), ("f", "{g} & b", "(a & b) | c"), ("g", "-a", "(-a & b) | c"), ("f", "{g} ^ b", "(-a ^ b) | c"), ("g", "b", "(b ^ b) | c"),
+        ];
+        let mut earlier: Vec<(Rc<BDD<NamedSymbol>>, String)> = vec![];
+        for (name, body, meaning) in steps {
+            top.define(name, ReferenceContents::Syntax(parse(body).bdd));
+            if meaning.is_empty() {
+                continue;
+            }
+            let got = top.eval();
+            let want = parse(meaning).eval();
+            if got != want {
+                return Some(format!("after define {name} := {body}: expected the diagram of `{meaning}` {want:?}, got {got:?}"));
+            }
+            // a diagram installed as a definition
+            top.define("h", ReferenceContents::BDD(Rc::clone(&got)));
+            let via = parse("{h}");
+            via.define("h", ReferenceContents::BDD(Rc::clone(&got)));
+            if via.eval() != want {
+                return Some(format!("a diagram installed as definition `h` evaluates differently after define {name} := {body}"));
+            }
+            for (d, m) in &earlier {
+                if *d != parse(m).eval() {
+                    return Some(format!("an earlier result (`{m}`) changed its meaning"));
+                }
+            }
+            earlier.push((got, meaning.to_string()));
+        }
+        None
+    });
+    match r {
+        Err(p) => Some(Fail { case: case.into(), expected: "no panic".into(), actual: p }),
+        Ok(Some(e)) => Some(Fail { case: case.into(), expected: "evaluation depends only on the definitions in force".into(), actual: e }),
+        Ok(None) => None,
+    }
+}
+
 fn search_history(budget: usize, seed: u64) -> Option<Fail> {
     if let Some(f) = case_history("1,3,5|1|0|1") {
+        return Some(f);
+    }
+    if let Some(f) = case_history_define("define") {
+        return Some(f);
+    }
+    if let Some(f) = case_history_big("big") {
         return Some(f);
     }
     for k in 0..(budget / 30).max(50) {
@@ -1169,7 +1278,17 @@ fn check_formula(case: &str, f: &F, src: &str) -> Option<Fail> {
     None
 }
 
-const CORNER: [&str; 30] = [
+const CORNER: [&str; 40] = [
+    "mu X # ((a | (nu X # (X & b))) | X)",
+    "nu X # ((mu X # (X | a)) & X)",
+    "(lfp X # ((gfp X # (X & a)) | (X & b))) | c",
+    "mu X # ((a & b) | (exists a # X))",
+    "nu X # ((a | b) & (all a # X))",
+    "false <= a",
+    "(a & -a) <= b",
+    "a & b | c & d",
+    "a ^ b & c | d ^ a",
+    "a <=> b ^ c & d | a",
     "gfp X # (lfp Y # (Y | (!(a & b) & (a => (all b # X)))))",
     "lfp X # (gfp Y # (Y & ((a & b) | (a & (exists b # X)))))",
     "gfp X # ((lfp Y # (Y | (a & X))) & (lfp Y # (Y | (b & X))))",
@@ -1469,6 +1588,22 @@ fn search_parse(budget: usize, seed: u64) -> Option<Fail> {
         }
     }
     let mut rng = Rng(seed | 1);
+    // unparenthesised operator chains (right associativity without precedence), all operator spellings
+    let ops = ["&", "and", "*", "|", "or", "+", "^", "xor", "nor", "nand", "=>", "implies", "in", "<=", "<=>", "iff", "eq"];
+    let atoms = ["a", "b", "c", "d", "-a", "!b", "not c", "(a | b)", "true", "[a, b] = 1", "exists a # a", "if a then b else c"];
+    for _ in 0..(budget / 2).max(500) {
+        let n = 2 + rng.below(5);
+        let mut t = String::from(atoms[rng.below(atoms.len())]);
+        for _ in 0..n {
+            t.push(' ');
+            t.push_str(ops[rng.below(ops.len())]);
+            t.push(' ');
+            t.push_str(atoms[rng.below(atoms.len() - 2)]);
+        }
+        if let Some(f) = case_parse(&t) {
+            return Some(f);
+        }
+    }
     for _ in 0..budget {
         let len = 4 + rng.below(6);
         let s: Vec<&str> = (0..len).map(|_| ALPHA[rng.below(ALPHA.len())]).collect();
@@ -1791,7 +1926,7 @@ fn main() {
             "formula" => case_formula(c),
             "parse" => case_parse(c),
             "lex" => case_lex(c),
-            "history" => case_history(c),
+            "history" => if c == "big" { case_history_big(c) } else if c == "define" { case_history_define(c) } else { case_history(c) },
             "index" => case_index(c),
             _ => std::process::exit(2),
         }
